@@ -250,7 +250,11 @@ def compare(ctx, prop, cases, impl, model, nontrivial=None, shrink=None):
     distinct = set()
     hist = {}
     n_viol = 0
+    skipped = 0
     for case, im, (mo, sp, cls) in zip(cases, impl, model):
+        if im is None:          # the harness could not observe this case (e.g. uncommitted memory)
+            skipped += 1
+            continue
         op = case.split(" ", 1)[0]
         hist[op + "|" + cls] = hist.get(op + "|" + cls, 0) + 1
         if nontrivial is None or nontrivial(case, mo, cls):
@@ -286,7 +290,8 @@ def compare(ctx, prop, cases, impl, model, nontrivial=None, shrink=None):
     for kid, cs in seen_known.items():
         ctx.known_lines.append("KNOWN-FINDING: property=%s %s %s (e.g. case: %s; %d cases this run)" %
                                (prop, kid, known_ids[kid]["what"], cs[0], len(cs)))
-    ctx.coverage["evaluations"] = ctx.coverage.get("evaluations", 0) + len(cases)
+    ctx.coverage["skipped_unobservable"] = ctx.coverage.get("skipped_unobservable", 0) + skipped
+    ctx.coverage["evaluations"] = ctx.coverage.get("evaluations", 0) + len(cases) - skipped
     ctx.coverage["distinct_nontrivial"] = ctx.coverage.get("distinct_nontrivial", 0) + len(distinct)
     h = ctx.coverage.setdefault("input_distribution", {})
     for k2, v in hist.items():
@@ -297,7 +302,7 @@ def compare(ctx, prop, cases, impl, model, nontrivial=None, shrink=None):
     step = max(1, len(cases) // 6)
     for i in range(0, len(cases), step):
         if len(smp) < 12:
-            smp.append({"case": cases[i], "impl": impl[i], "model": model[i][0], "spec": model[i][1], "class": model[i][2]})
+            smp.append({"case": cases[i], "impl": impl[i] if impl[i] is not None else "(skipped)", "model": model[i][0], "spec": model[i][1], "class": model[i][2]})
     return n_viol
 
 
